@@ -84,7 +84,7 @@ def main():
         for X in (["X", "Y", "X9", "XY"] if thorough else (["X", "X9"] if not use.startswith("position:") or len(plan) % 3 == 0 else ["X"])):
             lines = [l.replace("{X}", X) for l in tpl] + ["90 END"]
             for c in (cube if thorough else gen.sample(rng, [c for c in cube if c[0]], 3) + gen.sample(rng, cube, 1) if use.startswith("position:") else gen.sample(rng, cube, 8)):
-                size = 80 if c[0] else 32
+                size = (80 if len(plan) % 3 else 16) if c[0] else 32       # a requested size above and below BASIC09's 32
                 cfg = [n for n, bit in zip(CFG_NAMES, c[1:7]) if bit]
                 plan.append({"lines": lines, "use": use, "size": size, "cfg": cfg, "init": bool(c[7]), "prefix": False})
     for use, tpl in NUM_USES:
